@@ -1801,13 +1801,18 @@ impl IdmServerProxyWriteTransaction<'_> {
     fn check_password_quality(
         &mut self,
         cleartext: &str,
+        policy_pw_min_length: u32,
         related_inputs: &[&str],
     ) -> Result<(), OperationError> {
         // password strength and badlisting is always global, rather than per-pw-policy.
         // pw-policy as check on the account is about requirements for mfa for example.
-        if cleartext.len() < PW_SFA_MIN_LENGTH_NIST as usize {
+        //
+        // A unix password is a single factor, so the single factor minimum always applies,
+        // but the account's policy may demand more.
+        let pw_min_length = std::cmp::max(PW_SFA_MIN_LENGTH_NIST, policy_pw_min_length);
+        if cleartext.len() < pw_min_length as usize {
             return Err(OperationError::PasswordQuality(vec![
-                PasswordFeedback::TooShort(PW_SFA_MIN_LENGTH_NIST),
+                PasswordFeedback::TooShort(pw_min_length),
             ]));
         } else if cleartext.len() > PW_MAX_LENGTH_NIST as usize {
             return Err(OperationError::PasswordQuality(vec![
@@ -1939,13 +1944,13 @@ impl IdmServerProxyWriteTransaction<'_> {
         &mut self,
         pce: &UnixPasswordChangeEvent,
     ) -> Result<(), OperationError> {
-        // Get the account
-        let account = self
+        // Get the account, and the policy that applies to it.
+        let (account, resolved_account_policy) = self
             .qs_write
             .internal_search_uuid(pce.target)
             .and_then(|account_entry| {
                 // Assert the account is unix and valid.
-                Account::try_from_entry_rw(&account_entry, &mut self.qs_write)
+                Account::try_from_entry_with_policy(&account_entry, &mut self.qs_write)
             })
             .map_err(|e| {
                 admin_error!("Failed to start set unix account password {:?}", e);
@@ -2003,7 +2008,11 @@ impl IdmServerProxyWriteTransaction<'_> {
         // If we got here, then pre-apply succeeded, and that means access control
         // passed. Now we can do the extra checks.
 
-        self.check_password_quality(pce.cleartext.as_str(), account.related_inputs().as_slice())
+        self.check_password_quality(
+            pce.cleartext.as_str(),
+            resolved_account_policy.pw_min_length(),
+            account.related_inputs().as_slice(),
+        )
             .map_err(|e| {
                 admin_error!(?e, "Failed to checked password quality");
                 e
